@@ -29,6 +29,7 @@ RULE = (
 RULE += "; the function's result may be None for some keys"
 RULE += '; enumerated histories with a raising miss in a full cache'
 RULE += '; enumerated histories where the refresh of an expired key fails in a full cache'
+RULE += '; enumerated pairs of two-keyword calls with swapped ==-equal values in the other order'
 LEVEL_TEXT = (
     "Model-based history testing: every call's result is checked against predicates over the observed history (the tag "
     "of the returned object proves which invocation produced it), so wrong-key, stale, needlessly recomputed and "
@@ -462,6 +463,14 @@ def enumerate_cases(tier):
             for e in (None, 5):
                 yield {"variant": v, "limit": l, "exp": e, "ops": [*fill, boom, *fill]}
                 yield {"variant": v, "limit": l, "exp": e, "ops": [*fill, boom, boom, *reversed(fill), dict(boom, **{"raise": False}), fill[-1]]}
+    # two keyword arguments whose ==-equal, differently typed values (1 / 1.0 / True) are SWAPPED between the names, written in
+    # the other order: another call, whatever the order the keywords are written in
+    for v in VARIANTS:
+        for i, j in itertools.permutations((0, 1, 2), 2):
+            first = {"o": "call", "r": 0, "form": ["kw2", i, j], "raise": False}
+            swapped = {"o": "call", "r": 0, "form": ["kw2r", j, i], "raise": False}
+            yield {"variant": v, "limit": 3, "exp": None, "ops": [first, swapped, first, swapped]}
+            yield {"variant": v, "limit": 3, "exp": None, "ops": [swapped, {"o": "call", "r": 0, "form": ["kw2", j, i], "raise": False}, first]}
     # the refresh of an EXPIRED key fails while the cache is full (after the expired key was hit / was not hit in between):
     # the dead entry is gone, so a new key takes ITS place and the live keys are still answered from the cache
     for v in VARIANTS:
